@@ -20,6 +20,7 @@
     * one-qubit wrapper   : its gates in reversed list order (`sequence(unwrapped=True)`).
 -/
 import GraphiqModel.Proofs.HilbertBridgeOps
+import GraphiqModel.Proofs.Circuit
 namespace Graphiq
 namespace DMH
 open Hilbert Matrix PRow
